@@ -64,6 +64,22 @@ def usesRingBuffer (d : DelayKind) : Bool :=
   | .discrete | .discreteThenSpread | .spreadThenDiscrete => true
   | _ => false
 
+/-- one connection as `_add_matrix_delay` / `_add_edge_buffer` see it -/
+inductive ConnKind | undelayed | ring | cascade
+deriving Repr, DecidableEq
+
+/-- `NetworkGraph._uses_edge_delay_buffer` after the connections have been processed in the given order, starting from `f`.
+`sticky = true`: the source only ever executes `if use_ring_buffer: flag = True` (what `Tables.ringFlagSticky` reports for the current
+source); `sticky = false`: every delayed connection executes `flag = use_ring_buffer`, so the last one wins. -/
+def ringFlag (sticky : Bool) : Bool → List ConnKind → Bool
+  | f, [] => f
+  | f, c :: cs =>
+    ringFlag sticky (if sticky then f || (c == .ring) else (if c == .undelayed then f else (c == .ring))) cs
+
+/-- the ring-buffer clause of `mustRaise` for a network given by the list of its connections -/
+def mustRaiseConns (b : BackendT) (solver : String) (conns : List ConnKind) : Bool :=
+  ringFlag ringFlagSticky false conns && fixedStep solver && !b.edgeDelayBuffer
+
 /-- must this request raise before returning a function or a result? -/
 def mustRaise (c : Config) : Bool :=
   match backends.find? (·.name == c.backend) with
